@@ -461,6 +461,10 @@ def attributed(f, repo=None):
         if fr:
             o = owner_by_position(ranges, fr[0][0], fr[0][1])
             std = s["locs"][0] if s["locs"] else None
+            if std is None and s["frames"] and s["frames"][0][0] and "/library/" in s["frames"][0][0]:
+                # no Location at all (llvm.trap = intrinsics::abort) and the instruction itself belongs to alloc/core code
+                # (e.g. the abort-on-unwind guard of btree/mem.rs): std-internal, whichever crate frame it was inlined into
+                std = (s["frames"][0][0], s["frames"][0][1])
             out.append({"owner": o or "?", "kind": kind, "pos": "%s:%d:%d" % tuple(fr[0]), "callee": s["callee"], "snippet": "", "via": "debug-frame",
                         "std_loc": ("%s:%d" % (std[0].split("/library/")[-1], std[1])) if std else None, "ir_fn": s["fn"]})
         else:
